@@ -475,6 +475,15 @@ func (viso *VirtualISO) calculateSizes(filesLBA sizeSectors) {
 	viso.padAreaSize = padSectors.bytes()
 }
 
+// fitStrD cuts an identifier to the size of its (fixed width) field.
+func fitStrD(s stringD, size int) stringD {
+	if len(s) > size {
+		return s[:size]
+	}
+
+	return s
+}
+
 func (viso *VirtualISO) makeVolumeDescriptors(volumeName string) {
 	descriptorsLBA := systemAreaSize.sectors()
 	pathTableLLBA := descriptorsLBA + volumeDescriptorsCount + 1                       // little-endian iso path table
@@ -492,7 +501,7 @@ func (viso *VirtualISO) makeVolumeDescriptors(volumeName string) {
 		},
 		Primary: &primaryVolumeDescriptorBody{
 			SystemIdentifier:              mangleStrA(runtime.GOOS, false),
-			VolumeIdentifier:              mangleStrD(volumeName, false),
+			VolumeIdentifier:              fitStrD(mangleStrD(volumeName, false), 32),
 			VolumeSpaceSize:               viso.volumeSizeSectors,
 			VolumeSetSize:                 1,
 			VolumeSequenceNumber:          1,
@@ -501,7 +510,7 @@ func (viso *VirtualISO) makeVolumeDescriptors(volumeName string) {
 			TypeLPathTableLoc:             pathTableLLBA,
 			TypeMPathTableLoc:             pathTableMLBA,
 			ApplicationIdentifier:         "ps3netsrv",
-			VolumeSetIdentifier:           mangleStrD(volumeName, false),
+			VolumeSetIdentifier:           fitStrD(mangleStrD(volumeName, false), 128),
 			VolumeCreationDateAndTime:     volumeDescriptorTimestampFromTime(now),
 			VolumeModificationDateAndTime: volumeDescriptorTimestampFromTime(now),
 			FileStructureVersion:          1,
@@ -517,7 +526,7 @@ func (viso *VirtualISO) makeVolumeDescriptors(volumeName string) {
 		},
 		Primary: &primaryVolumeDescriptorBody{
 			SystemIdentifier:              mangleStrA(runtime.GOOS, true),
-			VolumeIdentifier:              mangleStrD(volumeName, true),
+			VolumeIdentifier:              fitStrD(mangleStrD(volumeName, true), 32),
 			VolumeSpaceSize:               viso.volumeSizeSectors,
 			EscapeSequences:               "%/@",
 			VolumeSetSize:                 1,
@@ -527,7 +536,7 @@ func (viso *VirtualISO) makeVolumeDescriptors(volumeName string) {
 			TypeLPathTableLoc:             pathTableJolietLLBA,
 			TypeMPathTableLoc:             pathTableJolietMLBA,
 			ApplicationIdentifier:         "ps3netsrv",
-			VolumeSetIdentifier:           mangleStrD(volumeName, true),
+			VolumeSetIdentifier:           fitStrD(mangleStrD(volumeName, true), 128),
 			VolumeCreationDateAndTime:     volumeDescriptorTimestampFromTime(now),
 			VolumeModificationDateAndTime: volumeDescriptorTimestampFromTime(now),
 			FileStructureVersion:          1,
